@@ -442,7 +442,14 @@ func init() {
 						av = randAvail(r, bd)
 					}
 					addEval(c, b, &EvalSpec{Tree: t, RC: rc, Bind: bd, Avail: av, DoEval: true, DoTry: true, Lazy: true, Tags: []string{fmt.Sprintf("subset:%d", mask)}})
-					eventsOffAgree(c, t, rc, bd, av)
+				}
+			}
+			// operators with 15..40 operands (direct, and by flattening): a deciding or an unavailable operand at any position
+			for k := 0; k < c.N(60, 2500); k++ {
+				t, bd, av := wideTry(r)
+				for _, mask := range []int{15, 0} {
+					rc := &RunCfg{Opts: optSubset(mask, false)}
+					addEval(c, b, &EvalSpec{Tree: t, RC: rc, Bind: bd, Avail: av, DoEval: true, DoTry: true, Lazy: true, Tags: []string{"wide-operator"}})
 				}
 			}
 			return []*Batch{b}
@@ -482,11 +489,56 @@ func init() {
 						av = randAvail(r, bd)
 					}
 					addEval(c, b, &EvalSpec{Tree: t, RC: rc, Bind: bd, Avail: av, DoEval: true, DoTry: true, Lazy: true, Tags: []string{fmt.Sprintf("subset:%d", mask)}})
+					eventsOffAgree(c, t, rc, bd, av)
 				}
 			}
 			return []*Batch{b}
 		},
 	})
+}
+
+// wideTry: one operator (and/or/+/a registered one) with 15..40 leaf operands, all values neutral for the
+// operator except possibly one deciding operand, and 0..2 unavailable variables at random positions
+func wideTry(r *Rand) (*GT, *Binding, map[string]bool) {
+	name := []string{"and", "or", "&&", "+", "c_sum", "*"}[r.Intn(6)]
+	n := 15 + r.Intn(26)
+	isBool := name == "and" || name == "or" || name == "&&"
+	neutral := interface{}(int64(1))
+	if isBool {
+		neutral = name != "or"
+	}
+	bd := &Binding{Vals: map[string]interface{}{}}
+	av := map[string]bool{}
+	ch := make([]*GT, n)
+	for i := range ch {
+		vn := fmt.Sprintf("w%02d", i)
+		ch[i] = gvar(vn)
+		bd.Vals[vn] = neutral
+		av[vn] = true
+	}
+	if isBool && r.Intn(3) == 0 {
+		bd.Vals[fmt.Sprintf("w%02d", r.Intn(n))] = name == "or" // a deciding operand
+	}
+	for j := r.Intn(3); j > 0; j-- {
+		av[fmt.Sprintf("w%02d", n-1-r.Intn(minInt(n, 6)))] = false // unavailable, preferably near the end
+	}
+	t := gop(name, ch...)
+	if isBool && r.Intn(3) == 0 {
+		// the same by nesting, flattened by ReduceNesting
+		k := 1 + r.Intn(n-2)
+		t = gop(name, gop(name, ch[:k]...), gop(name, ch[k:]...))
+		if k < 2 || n-k < 2 {
+			t = gop(name, ch...)
+		}
+	}
+	return t, bd, av
+}
+
+func minInt(a, b int) int {
+	if a < b {
+		return a
+	}
+	return b
 }
 
 // eventsOffAgree compiles the same source with and without the event options and compares the decompiled
